@@ -40,6 +40,7 @@ type frame struct {
 
 type outChanReg struct {
 	reqID interface{}
+	epoch uint64 // connection epoch of the request
 
 	chID uint64
 	ch   reflect.Value
@@ -74,6 +75,12 @@ type wsConn struct {
 
 	// outgoing messages
 	writeLk sync.Mutex
+
+	// connEpoch counts the connections this wsConn has used; it changes, under writeLk, whenever conn
+	// is replaced. The id of an incoming request means something only on the connection it arrived on
+	// (after a reconnect the peer numbers its requests from the start again), so whatever answers a
+	// request is written only while the epoch is still the one the request arrived in.
+	connEpoch uint64
 
 	// ////
 	// Client related
@@ -142,10 +149,16 @@ func (c *wsConn) nextMessage() {
 }
 
 // nextWriter waits for writeLk and invokes the cb callback with WS message
-// writer when the lock is acquired
-func (c *wsConn) nextWriter(cb func(io.Writer)) {
+// writer when the lock is acquired. epoch is the connection epoch of the request
+// being answered: once the connection has been replaced the answer has no
+// addressee any more and cb gets a writer that discards it.
+func (c *wsConn) nextWriter(epoch uint64, cb func(io.Writer)) {
 	c.writeLk.Lock()
 	defer c.writeLk.Unlock()
+	if atomic.LoadUint64(&c.connEpoch) != epoch {
+		cb(io.Discard)
+		return
+	}
 	vhook("w.begin", c, "site", "nextWriter")
 	defer vhook("w.end", c, "site", "nextWriter")
 
@@ -223,7 +236,7 @@ func (c *wsConn) handleOutChans() {
 				Chan: registration.ch,
 			})
 
-			c.nextWriter(func(w io.Writer) {
+			c.nextWriter(registration.epoch, func(w io.Writer) {
 				resp := &response{
 					Jsonrpc: "2.0",
 					ID:      registration.reqID,
@@ -303,7 +316,7 @@ func (c *wsConn) handleOutChans() {
 }
 
 // handleChanOut registers output channel for forwarding to client
-func (c *wsConn) handleChanOut(ch reflect.Value, req interface{}) error {
+func (c *wsConn) handleChanOut(epoch uint64, ch reflect.Value, req interface{}) error {
 	c.spawnOutChanHandlerOnce.Do(func() {
 		go c.handleOutChans()
 	})
@@ -312,6 +325,7 @@ func (c *wsConn) handleChanOut(ch reflect.Value, req interface{}) error {
 	select {
 	case c.registerCh <- outChanReg{
 		reqID: req,
+		epoch: epoch,
 
 		chID: id,
 		ch:   ch,
@@ -539,8 +553,12 @@ func (c *wsConn) handleCall(ctx context.Context, frame frame) {
 			cancel()
 		}
 	}
+	// the connection this request arrived on
+	epoch := atomic.LoadUint64(&c.connEpoch)
 	if frame.ID != nil {
-		nextWriter = c.nextWriter
+		nextWriter = func(cb func(io.Writer)) {
+			c.nextWriter(epoch, cb)
+		}
 
 		c.handlingLk.Lock()
 		c.handling[frame.ID] = cancel
@@ -553,13 +571,19 @@ func (c *wsConn) handleCall(ctx context.Context, frame frame) {
 
 			if !keepctx {
 				cancel()
-				delete(c.handling, frame.ID)
+				// after a reconnect the entry under this id, if any, belongs to a request of the new connection
+				if atomic.LoadUint64(&c.connEpoch) == epoch {
+					delete(c.handling, frame.ID)
+				}
 			}
 		}
 	}
+	chOut := func(ch reflect.Value, id interface{}) error {
+		return c.handleChanOut(epoch, ch, id)
+	}
 
 	vhook("fe.call", c, "id", frame.ID, "method", frame.Method, "params", string(frame.Params))
-	go c.handler.handle(ctx, req, nextWriter, rpcError, done, c.handleChanOut)
+	go c.handler.handle(ctx, req, nextWriter, rpcError, done, chOut)
 }
 
 // handleFrame handles all incoming messages (calls and responses)
@@ -742,6 +766,7 @@ func (c *wsConn) tryReconnect(ctx context.Context) bool {
 		c.writeLk.Lock()
 		vhook("w.begin", c, "site", "swap")
 		c.conn = conn
+		atomic.AddUint64(&c.connEpoch, 1)
 		c.errLk.Lock()
 		c.incomingErr = nil
 		vhook("rc.swap", c)
